@@ -2,6 +2,7 @@ import LyModel.Base
 import LyModel.Text.Drv
 import LyModel.Lex.Drv
 import LyModel.XmlTree.Drv
+import LyModel.JsonTree.Drv
 import LyModel.XsdRe.Drv
 import LyModel.Val.Drv
 import LyModel.Path.Drv
@@ -19,6 +20,7 @@ def dispatch (comp op : String) (args : List String) : String :=
   | "text" => Text.Drv.handle op args
   | "lex" => Lex.Drv.handle op args
   | "xmltree" => XmlTree.Drv.handle op args
+  | "jsontree" => JsonTree.Drv.handle op args
   | "xsdre" => XsdRe.Drv.handle op args
   | "val" => Val.Drv.handle op args
   | "path" => Path.Drv.handle op args
